@@ -13,16 +13,62 @@ def hist(profile, shards, quick, thorough, mode="native", reports_to=(), tiers=(
 
 MEM = ("C06", "C07", "C12", "C14", "C16", "C17")
 
+
+def job(cmd, mode, shards, args, budget=None, budget_arg="events", reports_to=(), tiers=("quick", "thorough"), **kw):
+    d = {"mode": mode, "cmd": cmd, "args": list(args), "shards": shards, "budget": budget, "budget_arg": budget_arg, "reports_to": list(reports_to), "tiers": tiers}
+    d.update(kw)
+    return d
+
+
+def enum_iter(mode, shards, max_n, forget, random=0, extra=3, bare=False, tiers=("quick", "thorough"), reports_to=MEM, **kw):
+    args = ["--max-n", str(max_n), "--extra", str(extra), "--forget", str(int(forget)), "--random", str(random), "--markers", "1" if mode != "native" else "0"]
+    if bare:
+        args += ["--bare", "1"]
+    return job("enum_iter", mode, shards, args, reports_to=reports_to, tiers=tiers, exhaustive=True, **kw)
+
+
+def enum_retain(mode, shards, max_n, random=0, bare=False, tiers=("quick", "thorough"), **kw):
+    args = ["--max-n", str(max_n), "--random", str(random), "--markers", "1" if mode != "native" else "0"]
+    if bare:
+        args += ["--bare", "1"]
+    return job("enum_retain", mode, shards, args, reports_to=MEM, tiers=tiers, exhaustive=True, **kw)
+
+
+LEAK_OK_MIRI = "-Zmiri-ignore-leaks"
+ASAN_NOLEAK = "halt_on_error=1:abort_on_error=0:detect_leaks=0:exitcode=99:allocator_may_return_null=1"
+
 PLANS = {
-    "C01": [hist("bound", 10, 60000, 2500000), hist("evict", 2, 60000, 1500000), hist("extreme", 2, 40000, 1000000),
-            hist("extreme", 2, 40000, 1000000, mode="wrap")],
-    "C02": [hist("bound", 8, 60000, 2500000), hist("mutate", 3, 60000, 1500000), hist("ledger", 1, 60000, 1000000), hist("extreme", 2, 40000, 1000000),
-            hist("extreme", 2, 40000, 1000000, mode="wrap")],
-    "C03": [hist("evict", 14, 60000, 3000000), hist("mixed", 2, 60000, 1500000)],
-    "C04": [hist("map", 12, 60000, 3000000), hist("realloc", 2, 60000, 1500000), hist("mixed", 2, 60000, 1500000)],
-    "C05": [hist("order", 12, 60000, 3000000), hist("realloc", 2, 60000, 1500000), hist("mixed", 2, 60000, 1500000)],
-    "C10": [hist("insert", 14, 60000, 3000000), hist("mixed", 2, 60000, 1500000)],
-    "C11": [hist("mutate", 14, 60000, 3000000), hist("mixed", 2, 60000, 1500000)],
+    "C01": [hist("bound", 10, 480000, 7500000), hist("evict", 2, 480000, 4500000), hist("extreme", 2, 320000, 3000000),
+            hist("extreme", 2, 320000, 3000000, mode="wrap")],
+    "C02": [hist("bound", 8, 480000, 7500000), hist("mutate", 3, 480000, 4500000), hist("ledger", 1, 480000, 3000000), hist("extreme", 2, 320000, 3000000),
+            hist("extreme", 2, 320000, 3000000, mode="wrap")],
+    "C03": [hist("evict", 14, 480000, 9000000), hist("mixed", 2, 480000, 4500000)],
+    "C04": [hist("map", 12, 480000, 9000000), hist("realloc", 2, 480000, 4500000), hist("mixed", 2, 480000, 4500000)],
+    "C05": [hist("order", 12, 480000, 9000000), hist("realloc", 2, 480000, 4500000), hist("mixed", 2, 480000, 4500000)],
+    "C06": [hist("ledger", 10, 480000, 6000000), hist("mixed", 2, 480000, 3000000),
+            hist("ledger", 8, 100000, 2000000, mode="asan", reports_to=MEM),
+            hist("ledger", 16, 300, 4000, mode="miri", reports_to=MEM, extra=["--bare", "1"]),
+            enum_iter("native", 4, 5, False, tiers=("quick",)), enum_iter("native", 8, 8, False, tiers=("thorough",))],
+    "C07": [hist("realloc", 10, 480000, 6000000), hist("map", 2, 480000, 3000000),
+            hist("realloc", 10, 100000, 2000000, mode="asan", reports_to=MEM), hist("big", 2, 60000, 1500000, mode="asan", reports_to=MEM),
+            hist("realloc", 16, 300, 4000, mode="miri", reports_to=MEM, extra=["--bare", "1"])],
+    "C12": [enum_iter("native", 12, 7, False, random=400, tiers=("quick",)), enum_iter("native", 16, 10, False, random=5000, tiers=("thorough",)),
+            enum_iter("asan", 4, 5, False, random=100, tiers=("quick",)), enum_iter("asan", 12, 8, False, random=2000, tiers=("thorough",)),
+            enum_iter("miri", 16, 2, False, extra=2, bare=True, tiers=("quick",)), enum_iter("miri", 16, 4, False, extra=2, bare=True, tiers=("thorough",)),
+            hist("order", 2, 480000, 3000000)],
+    "C13": [hist("capacity", 14, 480000, 7500000), hist("realloc", 2, 480000, 3000000)],
+    "C14": [hist("clone", 12, 480000, 7500000), hist("mixed", 2, 480000, 3000000),
+            hist("clone", 6, 100000, 2000000, mode="asan", reports_to=MEM),
+            hist("clone", 16, 300, 4000, mode="miri", reports_to=MEM, extra=["--bare", "1"])],
+    "C15": [enum_retain("native", 8, 9, random=300, tiers=("quick",)), enum_retain("native", 16, 12, random=4000, tiers=("thorough",)),
+            enum_retain("miri", 16, 3, bare=True, tiers=("quick",)), enum_retain("miri", 16, 5, bare=True, tiers=("thorough",)),
+            hist("retain", 6, 480000, 4500000)],
+    "C17": [enum_iter("native", 8, 6, True, random=300, extra=1, tiers=("quick",)), enum_iter("native", 16, 9, True, random=3000, extra=1, tiers=("thorough",)),
+            enum_iter("asan", 4, 5, True, extra=1, tiers=("quick",), asan_options=ASAN_NOLEAK), enum_iter("asan", 12, 7, True, extra=1, random=1000, tiers=("thorough",), asan_options=ASAN_NOLEAK),
+            enum_iter("miri", 16, 2, True, extra=1, bare=True, tiers=("quick",), miri_flags=LEAK_OK_MIRI), enum_iter("miri", 16, 4, True, extra=1, bare=True, tiers=("thorough",), miri_flags=LEAK_OK_MIRI)],
+    "C20": [hist("hash", 12, 480000, 7500000), hist("realloc", 2, 480000, 3000000), hist("evict", 2, 480000, 3000000)],
+    "C10": [hist("insert", 14, 480000, 9000000), hist("mixed", 2, 480000, 4500000)],
+    "C11": [hist("mutate", 14, 480000, 9000000), hist("mixed", 2, 480000, 4500000)],
 }
 
 LEVELS = {p: "exploration" for p in ["C01", "C02", "C03", "C04", "C05", "C06", "C07", "C08", "C09", "C10", "C11", "C12", "C14", "C15", "C19", "C20"]}
@@ -35,6 +81,14 @@ FLOORS = {
     "C03": {"evaluations": {"quick": 300000, "thorough": 10000000}, "distinct": 200, "multi_evictions": 50, "replace_then_evict": 20, "grow_the_lru": 20, "exact_fit_evicts_nothing": 20},
     "C04": {"evaluations": {"quick": 300000, "thorough": 10000000}, "distinct": 300, "each:lookup_": 50, "reallocations": 1000, "max:const_hasher_max_len": 20},
     "C05": {"evaluations": {"quick": 300000, "thorough": 10000000}, "distinct": 100, "each:promote_": 5, "order_checked_after_realloc_len10": 100, "debug_compared": 100},
+    "C06": {"evaluations": {"quick": 300000, "thorough": 10000000}, "distinct": 100, "c12_dropped_after_prefix": 500},
+    "C07": {"evaluations": {"quick": 300000, "thorough": 10000000}, "distinct": 300, "reallocations": {"quick": 10000, "thorough": 300000}, "max:max_len": {"quick": 100, "thorough": 1000}},
+    "C12": {"evaluations": {"quick": 20000, "thorough": 200000}, "distinct": 5000, "c12_past_exhaustion": 1000, "c12_dropped_after_prefix": 1000},
+    "C13": {"evaluations": {"quick": 50000, "thorough": 1500000}, "distinct": 60, "c13_auto_growth": 500, "c13_shrunk": 500, "c13_alloc_failures_injected": 200, "c13_try_reserve_err_capacity": 200, "c13_with_capacity_inserts": 500},
+    "C14": {"evaluations": {"quick": 100000, "thorough": 3000000}, "distinct": 100, "c14_ops_with_sibling_caches": 50000},
+    "C15": {"evaluations": {"quick": 2000, "thorough": 20000}, "distinct": 60},
+    "C17": {"evaluations": {"quick": 10000, "thorough": 100000}, "distinct": 2000, "sum:c17_forgot_": 2000, "c17_forgot_drain": 300, "c17_further_use_ops": 2000, "c17_caches_dropped_after_forget": 1000},
+    "C20": {"evaluations": {"quick": 300000, "thorough": 10000000}, "distinct": 150, "c20_rebuilds": 2000, "c20_with_departures": 5000},
     "C10": {"evaluations": {"quick": 100000, "thorough": 3000000}, "distinct": 40, "each:c10_": 100},
     "C11": {"evaluations": {"quick": 100000, "thorough": 3000000}, "distinct": 30, "each:c11_class": 10},
 }
@@ -45,6 +99,14 @@ RULES = {
     "C03": "Histories that keep the cache full; for each event the set of entries that left is compared with the shortest LRU prefix computed (u128) from the pre-state's recorded sizes; evicted keys' drop order must be LRU order. distinct = (operation kind, #evictions class, exact-fit/one-over, target position, key present?, hasher).",
     "C04": "Histories over tiny key universes, all hashers incl. constant, owned and borrowed key forms, reallocation anywhere; every return value and every lookup of every id after every event is compared with unique-id map semantics computed from the pre-state; untouched keys must keep their (key uid, value uid). distinct = (operation kind, target position, present?, hasher, reallocated?, length class, key form).",
     "C05": "Histories with promotions at every position and reallocation in between; after each event the order of the survivors (hook walk, iter, rev, keys, values, peek_lru/mru, parsed Debug) must equal spec(pre-order, operation). distinct = (operation kind, target position, reallocated?, length class, promoting?, #departures class).",
+    "C06": "Identity-level drop ledger: every key/value object has a unique id; after every event 'objects alive == objects in the caches + objects handed back' and no id is ever dropped twice; histories end by drop, clear, drain, into_iter/into_keys/into_values consumed from either end for any number of steps; plus every next/next_back string on owning iterators for small lengths; the same workloads under AddressSanitizer+LeakSanitizer and Miri (leak check on). distinct = (operation kind, #drops class, #handed back, #caches, outcome).",
+    "C07": "Observation gate after every event: hook walk forward == reverse(backward), == len(), node set == occupied buckets, link symmetry (G1); iter/rev/keys/values/peek_lru/peek_mru == walk (G2); contains/peek/peek_entry of every id (both key forms) find exactly the walked node (G3); returned references point into the walked nodes. Reallocation-heavy histories natively, under ASan (caches to thousands of entries) and under Miri. distinct = (operation kind, length class, reallocated?, hasher, post length class).",
+    "C12": "Exhaustive enumeration: for each of the 7 iterator kinds, every cache length 0..=N and EVERY string over {next, next_back} of length <= len+3 (calls past exhaustion and drop-after-prefix included), on caches whose list order differs from bucket order, followed by further use of the cache; plus random strings on lists up to 60. Yields compared with the spec computed from the observed pre-state; drain aftermath; ledger for unconsumed entries. distinct = (kind, length, #calls, #backs, call-string bits).",
+    "C13": "Histories with capacity operations anywhere (arguments 0, small, len, capacity+-1, usize::MAX, usize::MAX-len), allocator refusal injected into try_reserve, automatic growth compared with the capacity a fresh with_capacity(2*len) table gets from the library itself, with_capacity(n) promise, growth bound tracked per history. distinct = (operation, rebuilt?, length class, argument class, outcome).",
+    "C14": "Clone checked against its source right after clone() (ids, order, recorded sizes, scalars, capacity, disjoint object ids and node addresses, source fingerprint unchanged); afterwards every operation on any cache must leave every sibling cache's observation and structural fingerprint unchanged. Also under ASan and Miri (shared ownership would be a double free). distinct = (length class, hasher, tombstones?, ...) and (operation, sibling length).",
+    "C15": "Exhaustive enumeration of all 2^n reject-subsets (by recency position) for n <= N on caches with shuffled recency order, tombstones and a reallocation; predicate call log must equal the pre-order with the stored addresses; survivors, len/current_size, ledger of rejected objects. Plus patterned/random predicates on lists up to 60 and retain inside random histories. distinct = (length class, subset shape, #rejected class, hasher).",
+    "C17": "Fault enumeration: for each of the 7 iterator kinds, every length 0..=N and every next/next_back string of length <= len+1, the iterator is mem::forget-ed; afterwards the cache (if any) is observed (gate G1-G3), must not list any object the iterator handed out, is used by ~12 further operations with all transition oracles on, and is dropped; the ledger must show no double drop. Same under ASan (leak check off) and Miri (-Zmiri-ignore-leaks).",
+    "C20": "Hash-call counter (owned + borrowed key forms) read around every API call: <= 2 + departures, + held entries only when the hook shows the table was re-allocated by an operation allowed to rebuild; == 0 for traversals, clear, drain, peek_lru/peek_mru. distinct = (operation, length class, #departures class, rebuilt?, #hashes).",
     "C10": "insert/try_insert with sizes aimed at both sides of every threshold; classification, payload, identity of the returned pair and 'nothing changed' computed from the pre-state. distinct = (insert|try_insert, which failure conditions hold at once, boundary hit, length class, cache exactly full?).",
     "C11": "mutate at every position with shrink / same / fits / needs k evictions / too large; closure-ran flag, forwarded token, order, recorded size (hook), evictions and error payload compared with the spec computed from the pre-state. distinct = (present?, size-change class, position, #evictions class, exact fit, length class).",
 }
